@@ -16,15 +16,25 @@ Definition ex_prog : expr :=
                                   [(EVar "+", ECall (EVar "len") [EList [EInt 1; ECall (EVar "-") [EInt 4]]])]]))
         [EInt 5].
 
-Example ex_prog_dbc : declared_before_captured [] ex_prog.
-Proof.
-  unfold declared_before_captured, ex_prog.
+Ltac dbc_tac :=
   repeat (first [ apply DCall | apply DLam | apply DSeq | apply DLcons | apply DLnil | apply DDecl | apply DChain
-                | apply DOcons | apply DOnil | apply DVar | apply DInt | apply DList ]).
-  - intros x Hx [[]|Hd]; vm_compute in Hx; vm_compute in Hd.
-    repeat (destruct Hx as [<-|Hx]; [repeat (destruct Hd as [Hd|Hd]; [discriminate|]); destruct Hd|]). destruct Hx.
-  - intros x Hx [[[]|Hd]|Hd]; vm_compute in Hx; vm_compute in Hd;
-      (repeat (destruct Hx as [<-|Hx]; [repeat (destruct Hd as [Hd|Hd]; [discriminate|]); destruct Hd|])); destruct Hx.
+                | apply DOcons | apply DOnil | apply DInt | apply DList
+                | (apply DVar; let Hm := fresh in intros Hm; vm_compute in Hm; vm_compute; first [reflexivity|discriminate]) ]).
+
+Ltac side_tac :=
+  match goal with
+  | |- forall x, In x _ -> ~ _ =>
+      let x := fresh "x" in let Hx := fresh "Hx" in let Hd := fresh "Hd" in
+      intros x Hx Hd; vm_compute in Hx; vm_compute in Hd;
+      repeat (destruct Hx as [<-|Hx];
+              [repeat (destruct Hd as [Hd|Hd]; [try contradiction; try discriminate|]); try contradiction|]);
+      try contradiction
+  end.
+
+(* with mutl = ["a"]: the outer variable a may be reassigned behind the frozen code's back *)
+Example ex_prog_dbc : declared_before_captured ["a"] [] ex_prog.
+Proof.
+  unfold declared_before_captured, ex_prog. dbc_tac; side_tac.
 Qed.
 
 Lemma f21_state_noclos : Forall frame_noclos (frames f21_state).
@@ -39,22 +49,55 @@ Proof.
   inversion Hg; subst. discriminate.
 Qed.
 
+(* the store after `a = 10` *)
+Definition f21_state_reassigned : state :=
+  match assign noprot f21_state 0 "a" (VInt 10) with UOk s => s | _ => f21_state end.
+
 Example ex_prog_freezes : exists e' B',
   freeze (look_in (frames f21_state) 0) [] ex_prog = Ok (e', B') /\ e' <> ex_prog /\
   snd (eval (prot0 1 (rn [] ex_prog)) 12 f21_state 0 ex_prog) = Val (VInt 11) /\
-  snd (eval (prot0 1 (rn [] ex_prog)) 12 f21_state 0 e') = Val (VInt 11).
+  snd (eval noprot 12 f21_state_reassigned 0 e') = Val (VInt 11) /\
+  snd (eval noprot 12 f21_state_reassigned 0 ex_prog) = Val (VInt (-3)).
 Proof.
   eexists. eexists. split; [vm_compute; reflexivity|]. split; [discriminate|].
-  split; vm_compute; reflexivity.
+  split; [|split]; vm_compute; reflexivity.
 Qed.
 
 Example ex_prog_hyps :
-  declared_before_captured [] ex_prog /\
-  srel 1 0 (look_in (frames f21_state) 0) (rn [] ex_prog) f21_state f21_state /\
-  agree 1 0 (look_in (frames f21_state) 0) (rn [] ex_prog) (frames f21_state).
+  declared_before_captured ["a"] [] ex_prog /\
+  srel 1 0 (look_in (frames f21_state) 0) (rn [] ex_prog) ["a"] f21_state f21_state_reassigned /\
+  agree 1 0 (look_in (frames f21_state) 0) (rn [] ex_prog) ["a"] (frames f21_state).
 Proof.
   split; [exact ex_prog_dbc|]. split.
-  - apply srel_refl; auto. apply f21_state_wf. apply f21_state_noclos.
+  - eapply srel_reassign with (st' := f21_state) (f := 0) (x := "a") (w := VInt 10).
+    + apply srel_refl; auto. apply f21_state_wf. apply f21_state_noclos.
+    + reflexivity.
+    + reflexivity.
   - apply agree_refl; [apply f21_state_noclos|]. intros x M. apply mem_spec in M. vm_compute in M.
     repeat (destruct M as [<-|M]; [vm_compute; discriminate|]). destruct M.
+Qed.
+
+(* Known finding freeze-binds-before-declaration on the model: in `a := a + 1` freeze binds `a`
+   before it freezes the right-hand side, so the frozen code reads the outer `a` when it runs. *)
+Definition k2_prog : expr :=
+  ECall (ELam [] (ESeq [EDecl "a" (EChain (EVar "a") [(EVar "+", EInt 1)]); EVar "a"])) [].
+
+Example k2_late_binding : exists e' B',
+  freeze (look_in (frames f21_state) 0) [] k2_prog = Ok (e', B') /\
+  declared_before_captured [] [] k2_prog /\
+  ~ declared_before_captured ["a"] [] k2_prog /\
+  snd (eval noprot 12 f21_state 0 e') = Val (VInt 4) /\
+  snd (eval noprot 12 f21_state_reassigned 0 e') = Val (VInt 11).
+Proof.
+  eexists. eexists. split; [vm_compute; reflexivity|]. split; [|split; [|split; vm_compute; reflexivity]].
+  - unfold declared_before_captured, k2_prog. dbc_tac; side_tac.
+  - unfold declared_before_captured, k2_prog. intro H.
+    inversion H as [| | | | | | | | | | | | | | | | D0 B0 f0 args0 Hf Ha | | |]; subst.
+    inversion Hf as [| | | | | | | | | | | | | | | D1 B1 ps1 b1 _ Hb | | | |]; subst.
+    inversion Hb as [| | | | | | D2 B2 es2 Hs | | | | | | | | | | | | |]; subst.
+    inversion Hs as [|D3 B3 e3 r3 Hd _]; subst.
+    inversion Hd as [| | | | | | | D4 B4 x4 e4 Hc | | | | | | | | | | | |]; subst.
+    inversion Hc as [| | | | | | | | | | | | | | | | | D5 B5 a5 ops5 Hv _ | |]; subst.
+    inversion Hv as [| | | D6 B6 x6 Hm | | | | | | | | | | | | | | | |]; subst.
+    specialize (Hm eq_refl). discriminate.
 Qed.
